@@ -32,9 +32,9 @@ def key_domain(env, quick):
 
 def msg_domain(env, quick):
     g = rng(env, "msgs")
-    lens = [0, 1, 31, 32, 33, 55, 56, 63, 64, 65, 119, 120, 127, 128, 129, 1000, 4096]
+    lens = [0, 1, 31, 32, 33, 55, 56, 63, 64, 65, 119, 120, 127, 128, 129, 1000, 4096, 65487, 65536, 70001]
     if not quick:
-        lens.append(16384)
+        lens += [16384, 65535, 65488, 200000]
     out = [("default", b"abc")]
     for n in lens:
         out.append(("count:%d" % n, bytes(i & 0xFF for i in range(n))))
@@ -65,12 +65,25 @@ def pop_case(sk):
     pk = BL.call(S.SkToPk, sk)
     if pk[0] != "ok":
         return ("SkToPk", "48 bytes", pk)
+    # one history: the key bytes signed and verified as an ordinary message, then the possession
+    # proof, then the message signature again (same bytes under two tags)
+    sg = BL.call(S.Sign, sk, pk[1])
+    if sg[0] != "ok":
+        return ("Sign(message = own pk)", "96 bytes", sg)
+    v = BL.verdict(S.Verify, pk[1], pk[1], sg[1])
+    if v is not True:
+        return ("Verify(message = own pk)", True, v)
     pr = BL.call(S.PopProve, sk)
     if pr[0] != "ok" or not isinstance(pr[1], bytes) or len(pr[1]) != 96:
         return ("PopProve", "96 bytes", pr)
     v = BL.verdict(S.PopVerify, pk[1], pr[1])
     if v is not True:
         return ("PopVerify", True, v)
+    v = BL.verdict(S.Verify, pk[1], pk[1], sg[1])
+    if v is not True:
+        return ("Verify(message = own pk) after PopVerify", True, v)
+    if pr[1] == sg[1]:
+        return ("proof == message signature", "different byte strings", "equal")
     return None
 
 
